@@ -28,7 +28,8 @@ ASSUMPTIONS = ["header option names never collide with the standard upgrade head
                "wss scenarios run real OpenSSL over the simulated wire with verification disabled (C11 covers verification)"]
 
 HOSTS = {"name": ("srv.sim.test", "10.3.0.1", _rs.AF_INET), "ipv4": ("10.3.0.2", "10.3.0.2", _rs.AF_INET),
-         "ipv6": ("[2001:db8::7]", "2001:db8::7", _rs.AF_INET6), "upper": ("SRV.Sim.Test", "10.3.0.1", _rs.AF_INET)}
+         "ipv6": ("[2001:db8::7]", "2001:db8::7", _rs.AF_INET6), "upper": ("SRV.Sim.Test", "10.3.0.1", _rs.AF_INET),
+         "redir": ("redir.sim.test", "10.3.0.9", _rs.AF_INET)}
 PORTS = (None, 80, 443, 8080, 1, 65535)
 PATHS = ("", "/", "/chat", "/a/b/c", "/p%20q", "/x.y-z_~")
 QUERIES = (None, "", "a=1", "a=1&b=%20", "q")
@@ -57,7 +58,15 @@ def plan(tier, seed):
 
 def expand(item, seed):
     if item["kind"] == "grid":
+        for s1 in ("ws", "wss"):
+            for s2 in ("ws", "wss"):
+                for p2 in (None, 8443):
+                    if s1 == item["scheme"]:
+                        yield {"scheme": s1, "host": "name", "port": None, "path": "/start", "query": None, "opts": {}, "conns": 1, "seed": 1,
+                               "redirect": {"scheme": s2, "port": p2, "path": "/landing", "query": "r=1"}}
         for host in HOSTS:
+            if host == "redir":
+                continue
             for port in PORTS:
                 for path in ("", "/", "/chat"):
                     for q in (None, "a=1"):
@@ -69,7 +78,7 @@ def expand(item, seed):
 
 
 def gen(rng):
-    sc = {"scheme": rng.choice(("ws", "ws", "ws", "wss")), "host": rng.choice(list(HOSTS)), "port": rng.choice(PORTS),
+    sc = {"scheme": rng.choice(("ws", "ws", "ws", "wss")), "host": rng.choice([h for h in HOSTS if h != "redir"]), "port": rng.choice(PORTS),
           "path": rng.choice(PATHS), "query": rng.choice(QUERIES), "conns": rng.choice((1, 1, 2, 3)),
           "seed": rng.randrange(1 << 30)}
     if sc["path"] == "" and sc["query"] == "":
@@ -95,6 +104,11 @@ def gen(rng):
     if rng.random() < 0.15:
         o["connection"] = rng.choice(("Connection: keep-alive, Upgrade", "Connection: Upgrade, keep-alive"))
     sc["opts"] = o
+    if sc["host"] != "redir" and rng.random() < 0.2:
+        # the server redirects once, possibly to the other scheme: the second request must reflect the URL it is sent for
+        sc["conns"] = 1
+        sc["redirect"] = {"scheme": rng.choice(("ws", "wss")), "port": rng.choice((None, 8443, 80, 443)), "path": rng.choice(("/landing", "/a/b")),
+                          "query": rng.choice((None, "r=1"))}
     return sc
 
 
@@ -130,10 +144,32 @@ def run(sc, choices=None):
     peers = []
     tls = scheme == "wss"
 
+    redirect = sc.get("redirect")
+    sc2 = None
+    if redirect is not None:
+        if conns != 1 or redirect.get("scheme") not in ("ws", "wss") or sc["host"] == "redir":
+            raise InvalidScenario("redirect")
+        sc2 = {"scheme": redirect["scheme"], "host": "redir", "port": redirect.get("port"), "path": redirect.get("path", "/landing"),
+               "query": redirect.get("query"), "opts": dict(opts)}
+        if sc2["port"] is not None and not 1 <= int(sc2["port"]) <= 65535:
+            raise InvalidScenario("redirect port")
+    peers2 = []
+
     def fac(conn):
-        p = WSPeer(w, {})
+        cfg_ = {}
+        if sc2 is not None:
+            cfg_ = {"response": {"mode": "custom", "status": 302, "reason": "Found", "headers": [["Location", build_url(sc2)]], "then": "eof"}}
+        p = WSPeer(w, cfg_)
         peers.append(p)
         if tls:
+            from ..tls import TLSPeer
+            return TLSPeer(w, p, "good")
+        return p
+
+    def fac2(conn):
+        p = WSPeer(w, {})
+        peers2.append(p)
+        if sc2["scheme"] == "wss":
             from ..tls import TLSPeer
             return TLSPeer(w, p, "good")
         return p
@@ -141,18 +177,23 @@ def run(sc, choices=None):
     key_host = hname.strip("[]").lower()
     w.net.add_host(key_host, [(fam, haddr)])
     w.net.listen(haddr, eff_port, fac)
+    if sc2 is not None:
+        w.net.add_host("redir.sim.test", [(_rs.AF_INET, "10.3.0.9")])
+        eff_port2 = int(sc2["port"]) if sc2["port"] is not None else (443 if sc2["scheme"] == "wss" else 80)
+        w.net.listen("10.3.0.9", eff_port2, fac2)
+    any_tls = tls or (sc2 is not None and sc2["scheme"] == "wss")
     draws = []
     outcomes = []
     with w:
         ws = w.ws
-        if tls:
+        if any_tls:
             from .. import tls as simtls
             simtls.install()
         for i in range(conns):
             u0 = len(w.urandom_log)
             try:
                 kw = dict(opts)
-                if tls:
+                if any_tls:
                     import ssl
                     kw["sslopt"] = {"cert_reqs": ssl.CERT_NONE, "check_hostname": False}
                 c = ws.create_connection(url, timeout=3, **kw)
@@ -164,7 +205,7 @@ def run(sc, choices=None):
             except BaseException as e:  # noqa
                 outcomes.append(exc_name(e) + ": " + str(e)[:200])
             draws.append([b for (_, n, b, _) in w.urandom_log[u0:] if n == 16])
-    res.absorb(w, exclude_kinds=("send", "recv", "deliver") if tls else ())
+    res.absorb(w, exclude_kinds=("send", "recv", "deliver") if any_tls else ())
     ctx = scheme
     optset = tuple(sorted(opts))
     for i, oc in enumerate(outcomes):
@@ -172,7 +213,20 @@ def run(sc, choices=None):
             res.violate("connect_failed_against_correct_server", ctx, f"connection #{i} to {url} with {optset}: {oc}")
     if not res.violations:
         keys = []
-        for i, p in enumerate(peers):
+        if sc2 is not None and len(peers) == 1 and len(peers2) == 1 and draws and len(draws[0]) == 2:
+            why = _check_request(peers[0], sc, url, eff_port, draws[0][:1], 0) or \
+                _check_request(peers2[0], sc2, build_url(sc2), eff_port2, draws[0][1:], 1)
+            if why:
+                res.violate(why[0], ctx + "/redirected", f"{url} -> {build_url(sc2)} opts={optset}: request #{1 if why is not None else 0}: {why[1]}")
+            elif peers[0].key == peers2[0].key:
+                res.violate("key_not_fresh", ctx + "/redirected", "same key on both hops")
+            peers_to_check = []
+        elif sc2 is not None:
+            res.violate("redirect_not_followed", ctx, f"requests seen: first host {len(peers)}, redirect target {len(peers2)}, key draws {[len(d) for d in draws]}")
+            peers_to_check = []
+        else:
+            peers_to_check = peers
+        for i, p in enumerate(peers_to_check):
             why = _check_request(p, sc, url, eff_port, draws[i] if i < len(draws) else [], i)
             if why:
                 res.violate(why[0], ctx, f"connection #{i} {url} opts={optset}: {why[1]}")
@@ -187,6 +241,8 @@ def run(sc, choices=None):
         res.probes["wss_request_checked"] = 1
     if conns > 1:
         res.probes["successive_connections"] = 1
+    if sc2 is not None:
+        res.probes["redirected_request_checked"] = 1
     return res
 
 
@@ -208,7 +264,7 @@ def _check_request(p, sc, url, eff_port, draws, idx):
     if req["target"] != target:
         return ("wrong_request_target", f"target {req['target']!r}, expected {target!r}")
     opts = sc.get("opts", {})
-    hname = {"name": "srv.sim.test", "ipv4": "10.3.0.2", "ipv6": "[2001:db8::7]", "upper": "srv.sim.test"}[sc["host"]]
+    hname = {"name": "srv.sim.test", "ipv4": "10.3.0.2", "ipv6": "[2001:db8::7]", "upper": "srv.sim.test", "redir": "redir.sim.test"}[sc["host"]]
     hostport = hname if eff_port in (80, 443) else f"{hname}:{eff_port}"
     want_host = opts.get("host") or hostport
 
@@ -302,4 +358,4 @@ def _check_request(p, sc, url, eff_port, draws, idx):
 
 
 def sample_view(sc, r):
-    return {"url": build_url(sc), "opts": sc.get("opts"), "connections": sc.get("conns")}
+    return {"url": build_url(sc), "opts": sc.get("opts"), "connections": sc.get("conns"), "redirect": sc.get("redirect")}
